@@ -1,15 +1,12 @@
---------------------------- MODULE MsgClientTrace ---------------------------
+--------------------------- MODULE MsgServerTrace ---------------------------
 (* Batch validation of event traces recorded from the real aiocoap message  *)
-(* layer (client role) against the monitor summary and property clauses of  *)
-(* MsgClientObs.  One initial state per recorded trace; every event is      *)
-(* folded into `obs'; at the end of each trace one line is printed with the *)
-(* set of clauses found false and the position of the first failure.        *)
-EXTENDS MsgClientObs, Json, IOUtils, TLC, TLCExt
+(* layer (server role / reaction table) against the monitor summary and     *)
+(* clauses of MsgServerObs (properties C04, C10).                           *)
+EXTENDS MsgServerObs, Json, IOUtils, TLC, TLCExt
 
 Traces == JsonDeserialize(IOEnv.TRACE_FILE)
 
 VARIABLES tid, l, obs, firstBad
-
 tvars == <<tid, l, obs, firstBad>>
 
 TInit == /\ tid \in 1..Len(Traces) /\ l = 1 /\ obs = ObsInit /\ firstBad = {}
